@@ -102,7 +102,7 @@ def jobs(tier: str) -> list[Job]:
     if tier == 'quick':
         js.append(Job('store-histories', 'hyp', lambda: _store_builder(25, False), 5000))
     else:
-        js.append(Job('store-histories', 'hyp', lambda: _store_builder(100, True), 200000))
+        js.append(Job('store-histories', 'hyp', lambda: _store_builder(100, True), 100000))
     try:
         from vf.props import c08_doc
         js.extend(c08_doc.jobs(tier))
